@@ -116,15 +116,23 @@ pub fn gen_c06(rng: &mut Rng, idx: u64) -> H1Scenario {
             if second {
                 let d = pick_delay(rng, k);
                 // optionally the second head itself arrives in two pieces
-                if rng.chance(1, 4) {
+                if rng.chance(1, 3) {
+                    // the rest may come much later: once the first bytes arrived in time the
+                    // connection is no longer idle
                     let mid = rng.range(layout[1].0 + 1, layout[1].2 - 1);
                     segs.push(Seg { end: mid, delay_ms: d as u32, wait: Wait::Time });
-                    segs.push(Seg { end: layout[1].2, delay_ms: rng.below(50) as u32, wait: Wait::Time });
+                    let rest = if rng.chance(1, 2) { rng.below(50) } else { rng.below(k + 1500) };
+                    segs.push(Seg { end: layout[1].2, delay_ms: rest as u32, wait: Wait::Time });
                 } else {
                     segs.push(Seg { end: layout[1].2, delay_ms: d as u32, wait: Wait::Time });
                 }
             }
             conn.segs = segs;
+            if second && rng.chance(1, 3) {
+                // the second handler takes longer than the keep-alive period
+                gates.push(GateEv { at_ms: start_ms as u64 + 300 + k + rng.below(k + 1000) });
+                conn.progs = vec![Prog::benign(), Prog { steps: vec![Step::Gate(0)], answer: Answer::ok_empty() }];
+            }
             note = "c06-keep-alive";
         }
         2 => {
@@ -359,10 +367,25 @@ pub fn check_c06(sc: &H1Scenario, out: &H1Out) -> Vec<Violation> {
             // shutdown starts at the first poll_shutdown, or when lingering starts (response to the
             // unread request written); from then on the connection future must finish within d
             let linger = cs.progs.first().map(|p| p.steps.contains(&Step::DropPayload)).unwrap_or(false);
-            let start = if linger { finals.first().and_then(|r| step_of_offset(co, r.end - 1)).map(|x| x.0) } else { co.shutdown_called.map(|x| x.0) };
-            match start {
+            let via = if linger { "linger" } else if sc.cfg.keep_alive == Ka::Os { "connection-close" } else { "keep-alive" };
+            // lingering (reading and discarding after an early response) is bounded by d, and so
+            // is the shutdown proper (final flush + poll_shutdown) that follows it
+            if linger {
+                if let Some(ls) = finals.first().and_then(|r| step_of_offset(co, r.end - 1)).map(|x| x.0) {
+                    let le = co.shutdown_called.map(|x| x.0).or(done_time(co));
+                    match le {
+                        Some(e) if e <= ls + d + EPS => {}
+                        other => vs.push(Violation::new(
+                            "C06.disconnect-bounded",
+                            "linger-outlasts-timeout",
+                            format!("lingering began at {} ms (response written), disconnect timeout {} ms, but shutdown started / connection ended at {:?}", ls, d, other),
+                        )),
+                    }
+                }
+            }
+            match co.shutdown_called.map(|x| x.0) {
                 None => {
-                    if out.quiescent {
+                    if out.quiescent && !co.task_done {
                         vs.push(Violation::new("C06.disconnect-bounded", "shutdown-never-started", format!("connection still open at quiescence; responses {:?}", finals.iter().map(|r| r.status).collect::<Vec<_>>())));
                     }
                 }
@@ -370,7 +393,7 @@ pub fn check_c06(sc: &H1Scenario, out: &H1Out) -> Vec<Violation> {
                     Some(e) if e <= s + d + EPS => {}
                     other => vs.push(Violation::new(
                         "C06.disconnect-bounded",
-                        format!("via={}:shutdown={:?}:outlasts-timeout", if linger { "linger" } else if sc.cfg.keep_alive == Ka::Os { "connection-close" } else { "keep-alive-expiry" }, cs.sock.shutdown),
+                        format!("via={}:shutdown={:?}:outlasts-timeout", via, cs.sock.shutdown),
                         format!("shutdown began at {} ms, disconnect timeout {} ms, connection future finished at {:?} (result {:?})", s, d, other, co.result.as_ref().map(|r| &r.0)),
                     )),
                 },
